@@ -25,7 +25,7 @@ ASSUME = ["every operation is its own simulation (END) so that the engine's fixe
           "negative user numbers are not generated: DUMP does not list them, so the store is not observable there",
           "kinetic reactants that take part in a batch reaction may be updated in place (no SAVE kinetics exists): their content is not required to stay unchanged",
           "the history stops at the first simulation that reports an error (e.g. non-convergence); steps before it are judged",
-          "RUN_CELLS equivalence uses single-step REACTION/temperature/pressure entries and KINETICS -steps equal to the RUN_CELLS time step",
+          "RUN_CELLS equivalence uses single-step temperature/pressure entries and KINETICS -steps equal to the RUN_CELLS time step (REACTION entries may have several steps)",
           "one case in eight runs under ASan+UBSan"]
 
 KINDS = ["solution", "exchange", "surface", "equilibrium_phases", "gas_phase", "solid_solutions", "kinetics", "reaction", "mix", "reaction_temperature", "reaction_pressure"]
@@ -119,6 +119,11 @@ class Hist:
                 t = (sec + t) if r.random() < 0.5 else (t + sec)
             return t + " -steps %d\n -tol 1e-9\n" % TSTEP
         if kind == "reaction":
+            w = r.random()
+            if w < 0.2:       # several steps: RUN_CELLS and USE + SAVE both walk through them and keep the last
+                return " %s 1\n %s mmol\n" % (r.choice(sorted(FORMULA_ELEMS)), " ".join(f(gens.loguni(r, 0.1, 5)) for _ in range(r.randint(2, 3))))
+            if w < 0.35:
+                return " %s 1\n %s mmol in %d steps\n" % (r.choice(sorted(FORMULA_ELEMS)), f(gens.loguni(r, 0.1, 5)), r.randint(2, 3))
             return " %s 1\n %s mmol\n" % (r.choice(sorted(FORMULA_ELEMS)), f(gens.loguni(r, 0.1, 5)))
         if kind == "reaction_temperature":
             return " %s\n" % f(r.choice([20, 30, 35, 50]))
